@@ -277,7 +277,22 @@ fn gen_value(c: &mut Choices) -> (Value, u32, u32) {
   let v = match c.pick(4) {
     0 => {
       let lease = if opt(c) {
-        Some([Duration::from_secs(1), Duration::from_millis(250), Duration::from_secs(100), Duration::INFINITE, Duration::ZERO][c.pick(5)])
+        Some(match c.pick(8) {
+          0 => Duration::from_secs(1),
+          1 => Duration::from_millis(250),
+          2 => Duration::from_secs(100),
+          3 => Duration::INFINITE,
+          4 => Duration::ZERO,
+          5 => Duration::from_secs(i32::MAX),
+          // any seconds / fraction pair the wire format can carry
+          6 => {
+            use speedy::Readable;
+            let mut b = (c.u32() & 0x7fff_ffff).to_le_bytes().to_vec();
+            b.extend_from_slice(&c.u32().to_le_bytes());
+            Duration::read_from_buffer_with_ctx(speedy::Endianness::LittleEndian, &b).unwrap_or(Duration::ZERO)
+          }
+          _ => Duration::from_nanos(i64::from(c.u32()) * 1000 + 1),
+        })
       } else {
         None
       };
@@ -289,8 +304,8 @@ fn gen_value(c: &mut Choices) -> (Value, u32, u32) {
       let name = if opt(c) { Some(gen_string(c)) } else { None };
       Value::Spdp(Box::new(SpdpDiscoveredParticipantData {
         updated_time: Utc::now(),
-        protocol_version: ProtocolVersion { major: 2, minor: c.pick(6) as u8 },
-        vendor_id: VendorId { vendor_id: [1, c.byte()] },
+        protocol_version: if c.chance(40) { ProtocolVersion { major: c.byte(), minor: c.byte() } } else { ProtocolVersion { major: 2, minor: c.pick(6) as u8 } },
+        vendor_id: if c.chance(40) { VendorId { vendor_id: [c.byte(), c.byte()] } } else { VendorId { vendor_id: [1, c.byte()] } },
         expects_inline_qos: c.bool(),
         participant_guid: GUID::new(GuidPrefix::new(&c.bytes(12)), EntityId::PARTICIPANT),
         metatraffic_unicast_locators: gen_locators(c),
@@ -299,7 +314,7 @@ fn gen_value(c: &mut Choices) -> (Value, u32, u32) {
         default_multicast_locators: gen_locators(c),
         available_builtin_endpoints: BuiltinEndpointSet::from_u32(c.u32()),
         lease_duration: lease,
-        manual_liveliness_count: c.int_in(0, 1000) as i32,
+        manual_liveliness_count: [0i32, 1, -1, i32::MAX, i32::MIN, c.int_in(0, 1000) as i32, c.u32() as i32][c.pick(7)],
         builtin_endpoint_qos: beq,
         entity_name: name,
         #[cfg(feature = "security")]
